@@ -44,7 +44,9 @@ def check(prop, tier, replay=None):
             for c in cases:
                 cs = c['case']
                 if cs['cut'] == 0 or cs['cut'] == cs['nblocks']:
-                    conc.append(dict(case=dict(cs, bytes=(0 if cs['cut'] == 0 else -1)), out=c['out']))
+                    conc.append(dict(case=dict(cs, bytes=(0 if cs['cut'] == 0 else -1), how='fail'), out=c['out']))
+                    if cs['cut'] == 0:
+                        conc.append(dict(case=dict(cs, bytes=0, how='kill'), out=c['out']))
                     continue
                 n = sizes[cs['b']]
                 if tier == 'thorough' and n <= 1000:
@@ -54,7 +56,10 @@ def check(prop, tier, replay=None):
                 else:
                     offs = sorted(set([1, n - 1, rnd.randrange(1, n)]))
                 for off in offs:
-                    conc.append(dict(case=dict(cs, bytes=off), out=c['out']))
+                    # the write failing at that byte (disk full) and the process being killed at that byte
+                    conc.append(dict(case=dict(cs, bytes=off, how='fail'), out=c['out']))
+                    if tier == 'quick' or off % 3 == 0 or n > 1000:
+                        conc.append(dict(case=dict(cs, bytes=off, how='kill'), out=c['out']))
         C.write_ndjson(cases_f, conc)
         obs_f = os.path.join(sd, 'obs.ndjson')
         C.run_sharded(kvh, 'store', cases_f, obs_f)
